@@ -116,6 +116,10 @@ func main() {
 		runGeo(o, rng, thorough)
 	case "pool":
 		runPool(o, rng, thorough, *replay)
+	case "hist":
+		runHist(o, rng, thorough, *replay, "")
+	case "svc":
+		runHist(o, rng, thorough, *replay, "svc")
 	case "valid":
 		runValid(o, rng, thorough)
 	default:
